@@ -872,7 +872,7 @@ func TestVerifC07Race(t *testing.T) {
 			if p := vlib.Catch(final); p != nil {
 				w.errs = append(w.errs, fmt.Sprintf("final check panicked: %v", p))
 			}
-			if len(w.errs) > 0 && !c07Known(sc.name, w.errs[0]) {
+			if len(w.errs) > 0 {
 				t.Errorf("FREE-RUN-FAILURE scenario=%q round=%d: %s", sc.name, i, strings.Join(w.errs, "; "))
 			}
 			w.close()
@@ -880,9 +880,4 @@ func TestVerifC07Race(t *testing.T) {
 		}
 	}
 	fmt.Printf("RACE-PASS rounds_per_scenario=%d executions=%d\n", rounds, total)
-}
-
-// c07Known: the recorded two-indexer finding may also show up in free-running rounds.
-func c07Known(scenario, msg string) bool {
-	return strings.Contains(scenario, "2 indexers") && strings.Contains(msg, "does not satisfy the query")
 }
